@@ -338,12 +338,18 @@ def build_script(ctx, items, warm=True, snap=True):
         if kind == "execve":
             s.envp(envp)
         jam = f.get("out") == "filefifo" and f.get("state") == "ok"
+        if sum(label.encode()) % 4 == 2:
+            s.add("sigblock", 13).add("sigblock", 10)      # a quarter of the callers have SIGPIPE and SIGUSR1 blocked
         if warm:
             if jam:
                 s.add("fifojam", "filefifo", 60)
+            if snap:
+                s.add("snapnow", "first:" + label)          # the FIRST call of the process must leave no residue either (one-time allocations aside)
             s.add("ret", -1, 2).add("quiet", 1).call(kind, "warm").add("quiet", 0)
             if jam:
                 s.add("fifowait")
+            if snap:
+                s.add("snapnow", "afterfirst:" + label)
             s.add("drain", "warm:" + label)
         if jam:
             s.add("fifojam", "filefifo", 60)      # the pipe is full when the record arrives; the reader makes room 60 ms later
@@ -411,6 +417,8 @@ def run_batches(build, items, workdir, workers=None, warm=True, snap=True, timeo
                 obs[cur] = dict(ctx=ctxs[i], rc=rc)
             elif ev == "mark" and e["label"].startswith("closed0:"):
                 pend["closed0"] = True
+            elif ev == "snapnow":
+                pend[e["label"].split(":", 1)[0]] = e.get("snap")
             elif ev == "mark" and e["label"].startswith("begin:"):
                 obs[cur].update(pend)
             elif ev == "env":
@@ -502,6 +510,10 @@ def evaluate(label, f, call, result, o):
     if late and not (f.get("errlog") == "yes"):
         out["C04"].append(("late-output:" + late[0][0], "output appears after the real exec started: %r" % (late[:2],)))
     # ---- C16
+    if o.get("first") and o.get("afterfirst"):
+        for k in SNAPKEYS:
+            if k not in ("heap", "children") and o["first"][k] != o["afterfirst"][k]:
+                out["C16"].append(("residue:%s:first-call" % k, "%s differs after the first call of the process: %r -> %r" % (k, o["first"][k], o["afterfirst"][k])))
     snaps = [("entry", pre[0].get("snap"))] + [("real-exec", a.get("snap")) for a in at] + [("return", r_.get("snap")) for r_ in ret]
     base = snaps[0][1]
     if base:
